@@ -216,6 +216,8 @@ impl BTreeMap<String, SourcedValue> {
     #[verifier::external_body]
     pub fn len(&self) -> (r: usize) ensures r == self@.len(), self@.dom().finite() { unimplemented!() }
     #[verifier::external_body]
+    pub fn is_empty(&self) -> (r: bool) ensures r == (self@.len() == 0), self@.dom().finite() { unimplemented!() }
+    #[verifier::external_body]
     pub fn get(&self, k: &str) -> (r: Option<&SourcedValue>)
         ensures (match r { Some(v) => self@.contains_key(k@) && *v == self@[k@], None => !self@.contains_key(k@) })
     { unimplemented!() }
